@@ -24,6 +24,8 @@ DOM = {
     "list2": [1.0, 2.0],          # YAML list shorthand: documented as a sequence
     "list3": [5.0, 3.0, 4.0],
     "fromctx2": {"from_context": "r"},
+    "seq0": {"values": [0.0, 2.0, 0.0]},      # falsy elements, repeated elements
+    "lin0": {"lo": 0.0, "hi": 0.0, "steps": 2},  # degenerate range
 }
 KIND = {
     "src": dict(proc="VSrc2", swept="value", other="offset", other_default=0.5, collection=True, data=None),
@@ -162,12 +164,12 @@ def judge(case: dict, scratch) -> Optional[Tuple[str, str]]:
 def cases(tier: str) -> List[dict]:
     out: List[dict] = []
     modes = [("combinatorial", False), ("by_position", False), ("by_position", True), ("combinatorial", True)]
-    d1 = ["lin3", "lin3_noend", "lin1", "log3", "log3_noend", "seq1", "seq2", "seq3", "list2", "list3", "fromctx2"]
+    d1 = ["lin3", "lin3_noend", "lin1", "log3", "log3_noend", "seq1", "seq2", "seq3", "list2", "list3", "fromctx2", "seq0", "lin0"]
     d2 = ["seq2", "seq3", "lin3", "log3_noend", "fromctx2", "seq1", "list2"]
     e1 = [None, "t", "2.0 * t", "float(t)", "max(t, 2.0)"]
     e2 = ["t + u", "t * u", "max(t, u)", "u - t", "t"]
     e3 = ["t * u + v", "t + u + v", "v"]
-    placements = ["default", "config", "context", "config+context"]
+    placements = ["default", "config", "context", "config+context", "config0", "context0"]  # ...0: the value supplied is 0.0 (falsy)
     surrounds = ["alone", "then_sum", "then_slice", "then_probe"]
 
     def add(kind, vars_, expr, mode, bc, placement, sur, extra=None):
@@ -178,15 +180,15 @@ def cases(tier: str) -> List[dict]:
         if any(isinstance(s, dict) and "from_context" in s for _, s in vars_):
             ctx["r"] = list(R_VALUE)
         if "config" in placement:
-            node_params[k["other"]] = OTHER_CFG
+            node_params[k["other"]] = 0.0 if placement.endswith("0") else OTHER_CFG
         if "context" in placement:
-            ctx[k["other"]] = OTHER_CTX
+            ctx[k["other"]] = 0.0 if placement.endswith("0") else OTHER_CTX
         if expr is None:
             # nothing computed: the swept parameter is an ordinary external parameter
-            if placement in ("config", "config+context"):
-                node_params[k["swept"]] = 3.0
-            elif placement == "context":
-                ctx[k["swept"]] = 5.0
+            if placement in ("config", "config+context", "config0"):
+                node_params[k["swept"]] = 0.0 if placement.endswith("0") else 3.0
+            elif placement in ("context", "context0"):
+                ctx[k["swept"]] = 0.0 if placement.endswith("0") else 5.0
         c = {"kind": kind, "vars": vars_, "exprs": exprs, "mode": mode, "broadcast": bc, "node_params": node_params, "ctx": ctx, "surround": sur}
         if extra:
             extra(c)
